@@ -289,6 +289,8 @@ def gen_case(rng, layout_name, *, subdivs=SUBDIVS, n_lines=None, ln=False, order
         else:
             d = rng.choice(subdivs)
         k = min(d, rng.choice([1, 1, 2, 3, 4]))
+        if extras and d <= 16 and rng.random() < 0.05:
+            k = d  # a line with an object in EVERY slot (the most a line of that subdivision can carry)
         slots = {}
         for j in sorted(rng.sample(range(d), k)):
             if group is not None:
@@ -347,7 +349,10 @@ def add_dimensions(rng, case, jp=True):
       measures             the whole chart shifted to measures up to 999 (large times)
       io (in memory)       each line ending in '\n' / '\r\n' (as readlines() gives them), trailing / leading blanks around a line
       io (file)            CRLF / LF / mixed line ends, trailing blank lines, no final line end, path as str / pathlib.Path, suffix .bms/.bme/.pms
-      call                 layout passed by keyword / positionally / not at all (the documented default is the BME layout) / through an instance"""
+      call                 layout passed by keyword / positionally / not at all (the documented default is the BME layout) / through an instance
+      again                the same text read a SECOND time after the first result has been edited in place through its public lists / tables
+                           (io.again = 'edit'), or - read_file - from a path that held ANOTHER, longer / shorter file which was read first
+                           (io.again = 'reused_longer' / 'reused_shorter'): what is returned is determined by the text alone"""
     h = case["header"]
     if rng.random() < 0.12:
         for k in rng.sample(["TITLE", "ARTIST", "PLAYLEVEL"], rng.choice([1, 1, 2, 3])):
@@ -407,6 +412,11 @@ def add_dimensions(rng, case, jp=True):
     io["pad"] = rng.random() < 0.2
     calls = ["kw", "kw", "pos", "instance"] + (["default", "default"] if case["layout"] == "BME" else [])
     io["call"] = rng.choice(calls)
+    r = rng.random()
+    if r < 0.15:
+        io["again"] = "edit"
+    elif r < 0.45 and case.get("via_file"):
+        io["again"] = rng.choice(["reused_longer", "reused_shorter"])
     case["io"] = io
     return case
 
@@ -554,6 +564,77 @@ def read_real(case):
     return owner.read(src, note_channel_config=lay)
 
 
+def _edit_result(bms):
+    """Change a returned map in place through its public lists, tables and fields (every step on its own: a step the library refuses is
+    simply skipped - what an edit does is not this property's business)."""
+    steps = [
+        lambda: setattr(bms.hits, "offset", bms.hits.offset + 1234.5),
+        lambda: setattr(bms.hits, "column", 0),
+        lambda: setattr(bms.hits, "sample", b"edited.wav"),
+        lambda: setattr(bms.holds, "offset", bms.holds.offset - 77.25),
+        lambda: setattr(bms.holds, "length", bms.holds.length * 2 + 1),
+        lambda: setattr(bms.holds, "column", 1),
+        lambda: setattr(bms.bpms, "bpm", 33.0),
+        lambda: setattr(bms.bpms, "offset", bms.bpms.offset + 10.0),
+        lambda: bms.samples.update({k: b"edited_" + bytes(k) for k in list(bms.samples)}),
+        lambda: bms.samples.__setitem__(b"ZX", b"added.wav"),
+        lambda: bms.exbpms.update({k: 1.0 for k in list(bms.exbpms)}),
+        lambda: bms.misc.__setitem__(b"EDITED", b"1"),
+        lambda: bms.misc.update({k: b"edited" for k in list(bms.misc)}),
+        lambda: setattr(bms, "title", b"edited"),
+        lambda: setattr(bms, "artist", b"edited"),
+        lambda: setattr(bms, "version", b"99"),
+        lambda: setattr(bms, "ln_end_channel", b"QQ"),
+    ]
+    for st in steps:
+        try:
+            st()
+        except Exception:  # noqa
+            pass
+
+
+_SHORT_PRIOR = b"#TITLE prior\r\n#ARTIST prior\r\n#BPM 99\r\n#WAV01 prior.wav\r\n#00111:01\r\n"
+
+
+def _prior_file_content(case, how):
+    """ANOTHER BMS text for the path that will afterwards hold the case's text: the case's text followed by 60 more header / data lines
+    (longer: other title, every #WAV id given another file, an object in every lane of measures 900..911), or a five-line text (shorter)."""
+    if how == "reused_shorter":
+        return _SHORT_PRIOR
+    lanes = sorted(c.decode() for c in note_lanes(layout_of(case["layout"])))
+    more = ["#TITLE prior content of the path", "#GENRE prior", "#BPM7Q 55.5"]
+    more += [f"#WAV{k} prior_{k}.wav" for k in list(case["wav"])[:20]] + ["#WAVZX prior_zx.wav"]
+    for m in range(900, 912):
+        more += [f"#{m:03d}{ch}:ZX00ZX00" for ch in lanes[: 3 + m % 3]]
+    src = source(case)
+    return src + (b"" if src.endswith(b"\n") or not src else b"\r\n") + "\r\n".join(more).encode(ENC) + b"\r\n"
+
+
+def read_real_on_a_used_path(case, how):
+    """read_file on a path that held another file before: write the other content, read it, overwrite the file with the case's text, read."""
+    from pathlib import Path
+
+    from reamber.bms.BMSMap import BMSMap
+
+    lay = layout_of(case["layout"])
+    io = case.get("io") or {}
+    fd, p = tempfile.mkstemp(suffix=io.get("ext", ".bms"))
+    os.close(fd)
+    try:
+        arg = Path(p) if io.get("path") == "Path" else p
+        with open(p, "wb") as f:
+            f.write(_prior_file_content(case, how))
+        try:
+            BMSMap.read_file(arg, note_channel_config=lay)
+        except Exception:  # noqa: the other file is not this case's business
+            pass
+        with open(p, "wb") as f:
+            f.write(source(case))
+        return BMSMap.read_file(arg, note_channel_config=lay)
+    finally:
+        os.unlink(p)
+
+
 def run_case(case):
     """-> list of (clause id, detail).  Empty = the real reader agrees with the denotation."""
     import logging
@@ -587,6 +668,8 @@ def run_case(case):
         return fails
     finally:
         logging.disable(logging.NOTSET)
+    again = (case.get("io") or {}).get("again")
+    f0 = _fingerprint(bms) if again else None
 
     # ---- header fields retained
     h = case["header"]
@@ -668,6 +751,33 @@ def run_case(case):
             if ws is not None and _txt(gs) != ws:
                 fail("hold_sample", f"hold col {gc} at {gt} ms has sample {gs!r}, head #WAV{wid.decode()} is {ws!r}")
                 break
+    if again and not fails:
+        # the text alone determines what is returned: a SECOND read of it gives the same values, whatever happened to the first result
+        # and whatever the path held before
+        clause = "read_again_after_editing_the_first_result" if again == "edit" else "read_file_of_a_path_that_held_another_file"
+        logging.disable(logging.WARNING)
+        try:
+            with warnings.catch_warnings():
+                warnings.simplefilter("ignore")
+                if again == "edit":
+                    _edit_result(bms)
+                    assert _fp_diff(f0, _fingerprint(bms)), "the edit changed nothing"
+                    bms2 = read_real(case)
+                elif case.get("via_file"):
+                    bms2 = read_real_on_a_used_path(case, again)
+                else:
+                    bms2 = None
+            if bms2 is not None:
+                d = _fp_diff(f0, _fingerprint(bms2))
+                if d:
+                    fail(clause, ("after the first result was edited in place, the same text read again gives other values: " if again == "edit" else
+                                  f"the path held another ({again[7:]}) file, which was read; then the file was overwritten with this text and read: other values than the same bytes give on a fresh path: ") + "; ".join(d[:3]))
+        except AssertionError:
+            raise
+        except Exception as e:  # noqa
+            fail(clause, f"{type(e).__name__}: {e}")
+        finally:
+            logging.disable(logging.NOTSET)
     return fails
 
 
@@ -729,7 +839,8 @@ CLAUSES = (
     "read_raises hit_count hit_column_time hit_sample hold_count hold_column_time hold_length hold_sample header_title header_artist "
     "header_playlevel header_other header_extended_tempos header_wav_table header_lnobj header_initial_tempo "
     "ln_pairing_line_order tempo_spacing_off_snap_grid no_bpm_header_tempo_from_measure0 header_keys_lower_case "
-    "earlier_result_changed_by_later_read same_text_read_again_differs"
+    "earlier_result_changed_by_later_read same_text_read_again_differs "
+    "read_again_after_editing_the_first_result read_file_of_a_path_that_held_another_file"
 ).split()
 
 
@@ -867,6 +978,7 @@ def _grid_small_cases():
                 io = dict(call=calls[k % len(calls)], pad=False)
                 io.update(dict(eol=["crlf", "lf", "mixed"][k % 3], tail=k % 2, final_eol=bool(k % 3), path=["str", "Path"][k % 2], ext=[".bms", ".bme", ".pms"][k % 3]) if via_file
                           else dict(line_end=["", "\n", "\r\n"][k % 3], tail=k % 2))
+                io["again"] = {0: "reused_longer", 2: "reused_shorter", 1: "edit", 3: None}[k % 4]  # k even <=> read_file
                 case["io"] = io
                 if variant == "bare":
                     # only what the data needs: no #TITLE / #ARTIST / #PLAYLEVEL, no #WAV table, #BPMxx only when channel 08 is used
@@ -915,7 +1027,10 @@ def bms_read_vs_interpreter(rep):
         f"mixture on every random text (add_dimensions): absent #TITLE/#ARTIST/#PLAYLEVEL, {len(OTHERS_MORE)} more other headers, keys without value, '#wavXX' / '#bpmXX' table keys, ':' ',' ';' '#' '//' tab and Shift-JIS punctuation / double-byte space / half-width kana in values, #WAV names and comments, "
         f"header lines shuffled / after / between the data lines, decimal tempo texts with up to 13 digits, leading zero or trailing point, padded lines, line-end and call variants as in the small grid; "
         f"notes-only, tempo-only and empty texts (1/10); texts without #BPM whose tempo comes from measure 0 position 0, texts with lower-case header keys (1/40 each, clauses of their own); "
-        f"{rep.n(30, 300)} pairs of random texts read A, B, A in one process (state between calls)"
+        f"{rep.n(30, 300)} pairs of random texts read A, B, A in one process (state between calls); "
+        f"second reads: 15 % of the random texts (and a quarter of the small grid) are read a second time after the FIRST result was edited in place (offsets, columns, samples, tempo, "
+        f"#WAV / #BPMxx / other-header tables, title ...); 30 % of the read_file texts (half of the small grid's) are read from a path that held another - longer (60 more lines, other #WAV names) or "
+        f"shorter (5 lines) - file, itself read first: in both cases the second result must have the values the text gave on the first read; 5 % of the lines with <= 16 slots carry an object in every slot"
     )
     rep.rule = ("a case is one BMS text + layout + the way it is handed to the reader (or a pair of such); non-trivial when it has >= 1 tempo event after beat 0 and >= 1 note object, or a long note; "
                 "a pair is non-trivial when the two texts differ in header tables and objects")
@@ -933,6 +1048,8 @@ def bms_read_vs_interpreter(rep):
             measure_over_99=any(l["m"] > 99 for l in case["lines"]), padded_lines=bool(io.get("pad")), layout_omitted=io.get("call") == "default",
             layout_positional=io.get("call") == "pos", through_instance=io.get("call") == "instance", path_object=io.get("path") == "Path",
             lines_with_line_end=bool(io.get("line_end")), file_lf_or_mixed=io.get("eol") in ("lf", "mixed"), trailing_blank_lines=bool(io.get("tail")),
+            read_again_after_edit=io.get("again") == "edit", read_file_of_a_used_path=str(io.get("again")).startswith("reused") and bool(case.get("via_file")),
+            full_line=any(len(l["slots"]) == l["d"] > 1 for l in case["lines"]),
             no_bpm_header="BPM" not in case["header"], lower_case_keys=case.get("key_case") == "lower", lower_case_table_keys=case.get("key_case") == "lower_tables",
         )
         for k, v in flags.items():
